@@ -138,6 +138,7 @@ def enumerate_cases(meta, tier, seed, scheds):
         for integ in (0, 1, 2):
             add(rid, "intact", integ=integ, exp="ok", cls="intact")
             add(rid, "intact", integ=integ, pre=True, exp="error", cls="exists")
+            add(rid, "intact", integ=integ, pre=True, exp="error", cls="exists", var=1)   # the existing output is a zero-length file
         # corrupted-but-decodable family (every LTX integrity tag valid): damaged page in {page 1 = schema root: the
         # PRAGMA itself fails, root of t, a leaf of t, last page, two pages of the snapshot file} x damage style
         # {garbage, zero, wrong cell pointers, 0xFF b-tree header} x IntegrityCheck {None, Quick, Full}
